@@ -939,7 +939,8 @@ def gen_whole(tier: str, rng: random.Random) -> Tuple[List[Tuple[Grammar, List[T
         r1 = gz.rule(x)
         r2 = gz.rule(P('star', P('seq', x, P('one', C(97)))))
         gz.resolve()
-        zin = [d for d in corpus.sample_inputs(rng, zalpha, 3, 40 if quick else 160, longer=6)] + [b'\xe2\x82\xac', b'1\xe2\x82\xac\xe2\x82\xaca', b'255a256', b'11a111a1', b'...']
+        # every string over { '1', 'a' } up to length 5 (runs of the counted character of every length around Min / Max), plus samples over the wider alphabet
+        zin = corpus.all_strings([49, 97], 5) + [d for d in corpus.sample_inputs(rng, zalpha, 3, 30 if quick else 160, longer=6)] + [b'\xe2\x82\xac', b'1\xe2\x82\xac\xe2\x82\xaca', b'255a256', b'11a111a1', b'...', b'....']
         add(gz, [r0.id, r1.id, r2.id], ['plain', 'seqd', 'stard'], zin, 'leaf:' + zname)
     # fixed: `everything` (F12), `bytes`, `eolf`, `istring` — atoms the generators above do not produce
     gx = Grammar('c07x0')
